@@ -85,7 +85,15 @@ def run(ctx):
     gi = inline_value_calls(p, p.get_method(FC, "__getitem__"), keep=CACHE_VOCABULARY)
     gm = inline_value_calls(p, p.get_method(FC, "get_cache_misses"), keep=CACHE_VOCABULARY)      # private helpers are seen through
     dl = p.get_function(FCM + "._download_from_resources")
-    worker = p.nested_function(dl, "_worker")
+    # the worker is the function mapped over the misses (map / pool.imap / pool.map), wherever it is defined
+    worker = None
+    for c in calls(dl.node):
+        nm_ = call_name(c)
+        if (nm_ == "map" or nm_.endswith((".imap", ".map", ".imap_unordered", ".starmap"))) and c.args and isinstance(c.args[0], ast.Name):
+            cand = p.nested_function(dl, c.args[0].id) or p.resolve_name(dl.module, c.args[0].id)
+            if cand is not None and hasattr(cand, "node"):
+                worker = cand
+                break
     if worker is None:
         cands = [f for f in p.all_functions if f.parent is dl]
         worker = cands[0] if cands else None
@@ -196,6 +204,12 @@ def run(ctx):
                 tolerant = [n for b in h.body for n in ast.walk(b) if isinstance(n, ast.If)
                             and "allow_for_missing_files" in ast.unparse(n.test)]
                 reraises = any(any(isinstance(x, ast.Raise) for y in t.orelse for x in ast.walk(y)) for t in tolerant)
+                if ok and ret_false and not (bool(tolerant) and reraises):
+                    # the same policy written the other way round (`if not tolerant: raise`): decided per scenario
+                    sc = handler_scenarios(h)
+                    if sc["notfound_strict"] and all("raise" in ev_ for ev_ in sc["notfound_strict"]) and sc["notfound_tolerant"] and all(
+                            "return:False" in ev_ and "raise" not in ev_ for ev_ in sc["notfound_tolerant"]):
+                        tolerant, reraises = [True], True
                 ctx.expect(ok and ret_false and bool(tolerant) and reraises, "R19.1", cname,
                            "only the not-found exception is tolerated, only in tolerant mode, and it yields False", worker.loc(h))
     # ---- R19.2 deletions paired with entry removal
@@ -360,6 +374,27 @@ def run(ctx):
                    derived=", ".join(ast.unparse(c) for c in direct))
         # cleanup on failure: some handler removes the temporary file and re-raises
         cleanup = False
+        for tr in [n for n in own_walk(wnode) if isinstance(n, ast.Try) and n.finalbody]:
+            # try: ...; done = True / finally: if not done: remove -- the exception keeps propagating out of a finally block that
+            # does not return; `done` is False on every failing path when it is set only as the last statement of the try body
+            last = tr.body[-1] if tr.body else None
+            flag = last.targets[0].id if isinstance(last, ast.Assign) and len(last.targets) == 1 and isinstance(last.targets[0], ast.Name) \
+                and isinstance(last.value, ast.Constant) and last.value.value is True else None
+            sets = [n for n in own_walk(wnode) if isinstance(n, ast.Assign) and any(isinstance(t, ast.Name) and t.id == flag for t in n.targets)]
+            if flag is None or len(sets) != 2 or not all(isinstance(x.value, ast.Constant) and isinstance(x.value.value, bool) for x in sets):
+                continue
+
+            def fin_oracle(test, e):
+                if isinstance(test, ast.Call) and resolve_ext(p, worker, test) == "os.path.exists":
+                    return True
+                return None
+
+            def fin_ev(c):
+                return "cleanup" if (resolve_ext(p, worker, c) in ("os.remove", "os.unlink") and d_arg is not None and c.args
+                                     and ast.unparse(c.args[0]) == ast.unparse(d_arg)) else None
+            fpaths = scenario_paths(tr.finalbody, {flag: False}, fin_oracle, fin_ev)
+            if fpaths and all("cleanup" in ev_ and not any(str(x).startswith("return") for x in ev_) for _, ev_ in fpaths):
+                cleanup = True
         for tr in [n for n in own_walk(wnode) if isinstance(n, ast.Try)]:
             for h in tr.handlers:
                 rem = [c for b in h.body for c in ast.walk(b) if isinstance(c, ast.Call)
